@@ -61,6 +61,9 @@ type poolTx struct {
 	Tx        *types.Tx
 	Gas       int64 // measured once with validation.ValidateTx (input data of the oracle)
 	TimeRange uint64
+	// MayBeRefused: the pool is expected to refuse this transaction (it is valid in every respect but one that
+	// only block validation and pool admission look at); whatever the pool does, the node's own block must pass
+	MayBeRefused bool
 }
 
 var (
@@ -309,6 +312,10 @@ func world() {
 		return wire(labnet.Tx([]labnet.Out{in}, []*types.TxOutput{btm(in.Amount()-200000, labnet.Prog(tag))}))
 	}
 	alpha = append(alpha, &poolTx{Name: "c1", Tx: cheap(labnet.Out{Tx: g1, Idx: 1}, 0x76)}, &poolTx{Name: "c2", Tx: cheap(labnet.Out{Tx: g2, Idx: 1}, 0x77)})
+	// v2: a transaction with version 2, otherwise valid (block validation refuses it in a version-1 block; the pool
+	// is what keeps it away from the proposer)
+	dv := types.TxData{Version: 2, Inputs: []*types.TxInput{labnet.SpendInput(small[3], nil)}, Outputs: []*types.TxOutput{btm(small[3].Amount()-labnet.Fee, labnet.Prog(0x78))}}
+	alpha = append(alpha, &poolTx{Name: "v2", Tx: wire(labnet.SizedTx(dv)), MayBeRefused: true})
 	// fillers: a chain of 16 cheap transactions f1 <- f2 <- ... on a confirmed output; submitted as one run they push
 	// whatever follows them into the proposer's next batch of 16
 	prev := small[2]
@@ -424,6 +431,10 @@ func runCase(h []int, _ json.RawMessage) (out xplore.Out) {
 	}
 	for _, p := range submitted {
 		if _, err := nd.Chain.ValidateTx(p.Tx); err != nil {
+			if p.MayBeRefused {
+				out.Steps++
+				continue
+			}
 			return xplore.Out{Viols: []xplore.Viol{{Key: "infra-submission-rejected", What: fmt.Sprintf("%s: %v", p.Name, err)}}}
 		}
 		out.Steps++
@@ -709,7 +720,7 @@ func main() {
 	}
 	run := ev.Start("C38", "model_checking")
 	thorough := run.Thorough()
-	all := []int{0, 1, 2, 3, 4, 5, 6}
+	all := []int{0, 1, 2, 3, 4, 5, 6, 9}
 	var items [][]int
 	perState := map[string]int{}
 	add := func(si, bulkFlag int, seqs [][]int) {
